@@ -109,7 +109,8 @@ def stage_layout(g: dict[str, Any], p: int) -> dict[str, tuple]:
         return lay
     keys = list(lay)
     per = len(keys) // P
-    return {k: lay[k] for k in keys[p * per:(p + 1) * per]}
+    hi = (p + 1) * per if p < P - 1 else len(keys)   # the last stage takes
+    return {k: lay[k] for k in keys[p * per:hi]}     # the remainder (uneven)
 
 
 def coords(g: dict[str, Any], rank: int) -> tuple[int, int, int]:
